@@ -16,6 +16,7 @@ import re
 
 from vlib import core
 from vlib import gen
+from props import _c01_trace as T
 
 BINS = [b for b in ["h_commit", "h_chan"] if os.path.exists(os.path.join(core.HARNESS, "src", "bin", b + ".rs"))]
 LEVEL = "proof"
@@ -507,6 +508,76 @@ def functional(ctx, model_ok):
     return dis, fails
 
 
+def broken_placeholder(proved, dis):
+    b = []
+    if not proved:
+        b.append("Coq proof of Props/C01.v")
+    if dis:
+        b.append("correspondence h_commit (%d disagreements)" % len(dis))
+    return b
+
+
+KEY_COOP = "C01:coop-close-fee-exceeds-funder-balance"
+KEY_LIMIT = "C01:limit-not-accepted-by-funder-peer"
+
+
+def classify_known(rec, f):
+    """Maps a trace-judge failure to the key of a known class of findings (or None). The class
+    predicates are checked on the trace itself, so that only that class is ever excused."""
+    steps = rec.get("steps", [])
+    if f["judge"] == "no-panic" and "value_to_holder >= 0" in f["why"] and steps:
+        # cooperative close: the funder's whole-satoshi balance is below its own minimum closing fee
+        est = rec.get("cfg", {}).get("fee", 253)
+        for s in steps:
+            if s["l"].startswith("fee ") and not s.get("skip"):
+                est = int(s["l"].split()[1])
+        shutting = any(m[0] == "shutdown" for s in steps for m in s["em"][0] + s["em"][1])
+        d = [x for x in steps[-1]["d"] if x is not None and x["fund"] == 1]
+        if shutting and d and d[0]["self"] // 1000 < est * 800 // 1000 and not d[0]["in"] and not d[0]["out"]:
+            return KEY_COOP
+    if f["judge"] == "e:limits-sound" and "in-sync peer" in f["why"] and ("ChannelBalanceOverdrawn" in f["why"] or "FeeSpikeBuffer" in f["why"]):
+        s = steps[f["step"]]
+        x = int(s["l"].split()[1])
+        d = s["d"][x]
+        if d is not None and d["fund"] == 0 and rec["cfg"]["ct"] != 2:
+            return KEY_LIMIT
+    return None
+
+
+def trace_layer(ctx):
+    """Real nodes under seeded schedules; the property's judges on every captured commitment."""
+    if "h_chan" not in BINS:
+        return []
+    quick = ctx.tier == "quick"
+    n, nl = (400, 60) if quick else (20000, 200)
+    lines = T.gen_schedules(ctx.rng.fork("trace"), n, nl)
+    recs = T.run_harness(ctx, lines, "trace", timeout=1500)
+    tot = {}
+    fails = []
+    nontrivial = 0
+    fam = {}
+    for line, r in zip(lines, recs):
+        fs, st = T.judge_trace(ref_commit, r)
+        for k, v in st.items():
+            if isinstance(v, dict):
+                for kk, vv in v.items():
+                    tot[k + ":" + kk] = tot.get(k + ":" + kk, 0) + vv
+            else:
+                tot[k] = tot.get(k, 0) + v
+        if st.get("with_htlc", 0) > 0:
+            nontrivial += 1
+        f_ = line.split()[1].split("-")[0]
+        fam[f_] = fam.get(f_, 0) + 1
+        for f in fs[:1]:
+            fails.append((line, r, f))
+    ctx.coverage["trace"] = {"schedules": len(lines), "max_labels": nl, "families": fam, "steps": sum(len(r.get("steps", [])) for r in recs), "judged": tot}
+    ctx.coverage["trace_distinct_nontrivial"] = nontrivial
+    if recs and "steps" in recs[0] and len(recs[0]["steps"]) > 3:
+        s = recs[0]["steps"][3]
+        ctx.samples.append({"trace_schedule": lines[0][:200], "step3": {"label": s["l"], "commits": s["commits"][:1], "det": s["det"]}})
+    return fails
+
+
 def generate(ctx):
     metas, errors = gen.regen(ctx, ["TxBuilder", "ChanUtilsFees", "Consts"])
     return metas, errors
@@ -546,8 +617,9 @@ def run(ctx):
                         "zero-fee-commitment channels run at feerate 0 (debug_assert in the library)"]
     dis, fails = functional(ctx, okm)
     n_func = sum(ctx.coverage.get("functional_cases", {}).values())
-    ctx.coverage["evaluations"] = n_func
-    ctx.coverage["distinct_nontrivial"] = ctx.coverage.get("bc_distinct_nontrivial", 0)
+    tfails = trace_layer(ctx)
+    ctx.coverage["evaluations"] = n_func + ctx.coverage.get("trace", {}).get("steps", 0)
+    ctx.coverage["distinct_nontrivial"] = ctx.coverage.get("bc_distinct_nontrivial", 0) + ctx.coverage.get("trace_distinct_nontrivial", 0)
     ctx.coverage["rule"] = "amount layer: distinct build_commitment_transaction inputs with at least one HTLC (set of full input tuples); trace layer: distinct (schedule, config) pairs that reach at least one signed commitment with an HTLC"
     ctx.coverage["translated_items"] = getattr(ctx, "gen_meta", [])
     # ---- decide (DESIGN.md §9)
@@ -556,7 +628,24 @@ def run(ctx):
         broken.append({"obligation": "Coq proof of Props/C01.v", "detail": getattr(ctx, "proof_failure", {"where": gen_err})})
     if dis:
         broken.append({"correspondence": "h_commit vs Model/CommitAmounts.v + Gen/TxBuilder.v", "first_disagreements": dis[:5], "n": len(dis)})
+    reported = set()
+    for (line, rec, f) in tfails:
+        key = classify_known(rec, f)
+        tag = key or f["judge"]
+        if tag in reported:
+            continue
+        reported.add(tag)
+        small = line
+        if key is None and f["judge"] != "no-panic":
+            try:
+                small = T.shrink(ctx, ref_commit, line, f["judge"])
+            except Exception as ex:  # shrinking is best effort
+                ctx.log("shrink failed:", repr(ex))
+        ctx.violation("C01 fails on real nodes (%s): %s" % (f["judge"], f["why"][:500]),
+                      {"broken": broken_placeholder(proved, dis), "failing_input": {"schedule": small, "original_schedule": line, "step": f["step"], "judge": f["judge"], "why": f["why"]},
+                       "replay_kind": "h_chan", "replay_cmd": "%s <file with the schedule line> <out>" % ctx.bin_path("h_chan")}, True, key=key)
     if fails:
+        fails.sort(key=lambda x: len(x["case_line"]))
         f = fails[0]
         ctx.violation("C01 fails on the implementation: " + f["kind"] + ": " + f["why"],
                       {"broken": broken, "failing_input": f, "n_failing": len(fails), "replay_kind": "h_commit",
@@ -569,6 +658,16 @@ def run(ctx):
 
 def replay(ctx, rep):
     f = rep.get("failing_input")
+    if f and "schedule" in f:
+        ok_build, out = ctx.build_harness(BINS)
+        rec = T.run_harness(ctx, [f["schedule"]], "replay", shards=1)[0]
+        fs, st = T.judge_trace(ref_commit, rec)
+        print("schedule:", f["schedule"])
+        for x in fs[:5]:
+            print("judge  :", x["judge"], "step", x["step"], x["why"][:600])
+        if not fs:
+            print("judge  : ok")
+        return 1 if fs else 0
     if not f or "case_line" not in f:
         print(json.dumps(rep, indent=1)[:4000])
         return 0
